@@ -93,7 +93,8 @@ Exact(r) ==
             IF s.canon = 1 /\ Cardinality(M) = 1 /\ ExactMask(c, st) # M
             THEN /\ M \subseteq ExactMask(c, st)
                  /\ \A t \in M : Forced(st, TokBytes(c, t))
-            ELSE M \cap txt = ExactMask(c, st)
+            ELSE /\ M \cap txt = ExactMask(c, st)
+                 /\ M \subseteq txt     \* a text grammar never allows a special token or the bare marker (C19)
       [] r.ev \in {"Mask", "MaskOrEos"} /\ r.ok = 0 /\ ~Stopped(r.e) /\ r.cls = "empty" ->
             ExactMask(c, st) = {}
       [] r.ev = "ValidateAll" /\ r.ok = 1 /\ ~Stopped(r.e) ->
